@@ -1,9 +1,10 @@
 import MwVerif.Driver.Common
 import MwVerif.Model.Cells
 import MwVerif.Model.Rows
+import MwVerif.Model.Tables
 
 /-! `cells <tok>…` (`|` `!` `||` `!!` `<td>` `<th>` `</td>` `bar` `[[` `x<id>`) and `rows <tok>…` (`|-` `<tr>` `</tr>` `nl`
-`c<id>` `x<id>`): the grouped tokens, cells as `H(…)`/`D(…)`, rows as `R(…)`. -/
+`c<id>` `x<id>`): the grouped tokens, cells as `H(…)`/`D(…)`, rows as `R(…)`; `tables <tok>…` (`{|` `|}` `x<id>`): the paired tables as `T(…)`. -/
 namespace MwVerif.Driver.Table
 open MwVerif.Driver
 
@@ -38,6 +39,15 @@ def showRowOut : Rows.Out → String
   | .loose t => showRowTok t
   | .row _ c => "R(" ++ " ".intercalate (c.map showRowTok) ++ ")"
 
+def parseTableTok (s : String) : Option Tables.Tok :=
+  if s = "{|" then some .topen else if s = "|}" then some .tclose
+  else if s.startsWith "x" then (s.drop 1).toString.toNat?.map .other else none
+
+partial def showTableOut : Tables.Out → String
+  | .leaf i => s!"x{i}"
+  | .looseClose => "|}"
+  | .table cs => "T(" ++ " ".intercalate (cs.map showTableOut) ++ ")"
+
 def step (line : String) : String :=
   let (cmd, rest) := splitCmd line
   let toks := (rest.splitOn " ").filter (· ≠ "")
@@ -48,6 +58,9 @@ def step (line : String) : String :=
   | "rows" =>
     let ts := toks.filterMap parseRowTok
     if ts.length ≠ toks.length then "bad-op" else " ".intercalate ((Rows.rows ts).map showRowOut)
+  | "tables" =>
+    let ts := toks.filterMap parseTableTok
+    if ts.length ≠ toks.length then "bad-op" else " ".intercalate ((Tables.parse ts).map showTableOut)
   | _ => "bad-op"
 
 end MwVerif.Driver.Table
